@@ -23,8 +23,17 @@ RULE = ("logical documents rendered as binary token streams (keys as token ids /
         "skip_exact = values of every kind skipped through 6 mechanisms at depth 0-3 with single / doubled ghosts and `=`-less container "
         "fields; size_hint; entry = from_tape / from_slice / from_reader + deserialize() twice, on_failed_resolve after construction, "
         "with_flavor, BinaryFlavor::deserializer(), & / Box flavors and resolvers, BinaryFlavor::deserialize_reader, on the main "
-        "generator's documents and on configuration-sensitive ones")
+        "generator's documents and on configuration-sensitive ones"
         # <<< a_c04
+        # >>> s_c04
+        ".  wave 6 (props/C04_sizes.py): sizes = one size-like dimension at a time along 0 1 2 3 7 8 9 15 16 17 31 32 33 63 64 65 127 128 129 255 256 257 "
+        "1023 1024 1025 4095 4096 4097 65533 65534 65535 65536 on an otherwise small document: length of a captured / skipped string (to 65535), key, "
+        "element, field name; siblings, unknown fields, duplicates of one key, array elements, consecutive ghosts, depth of a skipped value (to 65536); depth "
+        "of the target type (to 257); buffer size around the largest token x schedule x offset (one byte less must be BufferFull); resolver entries (to all "
+        "65536 ids) and name lengths; every token id as a resolved / stringified / ignored key; unknown ids per strategy; target fields; rgb channel values; "
+        "integer keys; string length x position of the non-ASCII byte; lines / zero padding / name lengths of a token file.  Expected values by construction; "
+        "release and debug builds; documents up to 520 bytes also through the walk models")
+        # <<< s_c04
 TRUSTED = ["serde's primitive visitors (integer range checks, int->float casts) are the real ones and are mirrored in dedoc.expected_scalar_bin",
            "flavor arithmetic (eu4: i32/1000 in f32, Q49.15 rounded to 5 digits; raw: IEEE bits) is recomputed exactly in Python (fractions)",
            # [spec_tie]
@@ -478,6 +487,14 @@ def run(ctx):
     from props import C04_shapes
     C04_shapes.run(ctx, nt, gen_cases)
     # <<< a_c04
+
+    # >>> s_c04 (wave 6): size ladders -- every size-like dimension of the documents, configurations and targets, one at a time, to the
+    # boundaries of the format (strings of 65535 bytes captured on every path, 65536 siblings / elements / ghosts / levels of a skipped
+    # value, targets nested 257 deep, every buffer size around the largest token, resolvers of 65536 entries, every token id), expected
+    # values by construction; release + debug; the small ones through the walk models (props/C04_sizes.py; audit/C04.md "Size dimensions")
+    from props import C04_sizes
+    C04_sizes.run(ctx, nt)
+    # <<< s_c04
 
     # >>> w_fwd (wave 5): the method tables of the seven binary Deserializer impls (Tables.de_tables, generated from
     # src/binary/de.rs) against the real deserializers: every method x token kind x strategy x position x path through a
